@@ -20,6 +20,7 @@ Slack(T) == IF T = "float" THEN 8 ELSE 1048576
 Tol(T, kappa, mag) == 2 + ((kappa[1] * (1 + Abs(mag[1]) \div mag[2])) \div (kappa[2] * Slack(T))) * 4
 Matches(T, out, c) ==
     /\ out[1] = c.N /\ out[2] = c.nz /\ out[3] = c.fin                     \* summed call counters
+    /\ (c.N >= 2) => (out[4] > -900000000 /\ out[5] > -900000000)          \* finite (the driver's marker for a non-finite number)
     /\ (c.N >= 2) =>                                                        \* value and error are undefined for fewer than two calls
          LET kap == Kappa(c)
              kk == <<(kap[1] \div kap[2]) + 1, 1>>
